@@ -193,13 +193,17 @@ Proof.
       * intros y [<-|Hy]; [exact Ha|exact (IH y Hy)].
 Qed.
 
+(** [it.filter(p).next()] is [it.find(p)] *)
+Lemma hd_error_filter {T} (p : T -> bool) (l : list T) : List.hd_error (List.filter p l) = List.find p l.
+Proof. induction l as [|a l IH]; cbn; [reflexivity|]. destruct (p a); [reflexivity|exact IH]. Qed.
+
 Lemma from_symbol_spec s :
   match Unit_from_symbol S s with
   | Some u => exists l1 l2, u_iter S = l1 ++ u :: l2 /\ u_symbol S u = s /\ forall v, In v l1 -> u_symbol S v <> s
   | None => forall v, In v (u_iter S) -> u_symbol S v <> s
   end.
 Proof.
-  unfold Unit_from_symbol, iter_find.
+  unfold Unit_from_symbol, iter_find, iter_filter. rewrite ?hd_error_filter.
   pose proof (find_first (fun unit_ => ustr_eqb (u_symbol S unit_) s) (u_iter S)) as H.
   destruct (List.find _ _) as [u|].
   - destruct H as (l1 & l2 & E & Hu & Hall). exists l1, l2. split; [exact E|].
@@ -209,7 +213,7 @@ Proof.
 Qed.
 
 Lemma unit_from_symbol_is_from_symbol s : Quantity_unit_from_symbol S s = Unit_from_symbol S s.
-Proof. reflexivity. Qed.
+Proof. first [reflexivity | unfold Quantity_unit_from_symbol, Unit_from_symbol, iter_find, iter_filter; rewrite ?hd_error_filter; reflexivity]. Qed.
 
 Lemma from_scale_spec a :
   match LinearScaledUnit_from_scale S a with
@@ -218,12 +222,12 @@ Lemma from_scale_spec a :
   | None => forall v, In v (u_iter S) -> a_eqb am (u_scale S v) a = false
   end.
 Proof.
-  unfold LinearScaledUnit_from_scale, iter_find.
+  unfold LinearScaledUnit_from_scale, iter_find, iter_filter. rewrite ?hd_error_filter.
   exact (find_first (fun unit_ => a_eqb am (u_scale S unit_) a) (u_iter S)).
 Qed.
 
 Lemma unit_from_scale_is_from_scale a : HasRefUnit_unit_from_scale S a = LinearScaledUnit_from_scale S a.
-Proof. reflexivity. Qed.
+Proof. first [reflexivity | unfold HasRefUnit_unit_from_scale, LinearScaledUnit_from_scale, iter_find, iter_filter; rewrite ?hd_error_filter; reflexivity]. Qed.
 
 Lemma is_ref_unit_spec u : LinearScaledUnit_is_ref_unit S u = true <-> u = u_ref_unit S.
 Proof. unfold LinearScaledUnit_is_ref_unit. apply PeanoNat.Nat.eqb_eq. Qed.
